@@ -150,7 +150,7 @@ PROPS = {
     },
     "C07": {
         "rules": [r_scorer.run, kind_scope("connector", "scorer", "builder"), r_kind.bins("compile-bin"), r_panic.run_narrow_connector,
-                  r_codec.derived_caches],
+                  r_codec.derived_caches, r_codec.lanes_rule],
         "explanation": "SCORERCHK: in the portable build costs[pos] is read only on the true edge "
                        "of checks[pos] == key1 at pos = bases[key1] ^ key2; in the AVX2 build the "
                        "cost gather is masked by cmpeq(check, key1) AND the position-validity "
@@ -274,7 +274,7 @@ PROPS = {
     },
     "XKIND": {"rules": [r_kind.run_all], "explanation": "debug: KIND only", "level_text": "", "level_note": "", "technique": ""},
     "C05": {
-        "rules": [r_codec.run_c05, r_codec.derived_caches],
+        "rules": [r_codec.run_c05, r_codec.derived_caches, r_codec.lanes_rule],
         "explanation": "CODEC: for every hand-written bincode codec reachable from the dictionary "
                        "image the ordered (wire type, field) sequence of the encoder equals that "
                        "of the decoder, in the portable and the AVX2 build, and BorrowDecode "
